@@ -88,6 +88,19 @@ Example excl_increment_in_outer_inner_loop_collides :
   fst (excl_nest_bad [2; 2] 0 true) = [0; 0; 1; 1] /\ excl_trace [2; 2] = [0; 1; 2; 3].
 Proof. vm_compute. auto. Qed.
 
+(* three nested inner loops 2 x 3 x 4: the code's scheme (increment in the inner-most loop only) uses 0..23; a second
+   increment at the end of the middle loop (seeded/C20-a) reaches index 28 in arrays of 24 cells *)
+Example excl_three_deep :
+  excl_trace [2; 3; 4] = seq 0 24 /\
+  fst (excl_nest_inc [(2, false); (3, false); (4, true)] 0) = excl_trace [2; 3; 4] /\
+  list_max (fst (excl_nest_inc [(2, false); (3, true); (4, true)] 0)) = 28.
+Proof. vm_compute. auto. Qed.
+
+(* components of a linear index over three nested loops with extents 2, 3, 4: 17 = (1*3 + 1)*4 + 1 *)
+Example comp_three_deep : map (fun k => comp [2; 3; 4]%Z k 17%Z) [0; 1; 2] = [1; 1; 1]%Z /\
+                          map (fun k => comp [2; 3; 4]%Z k 23%Z) [0; 1; 2] = [1; 2; 3]%Z.
+Proof. vm_compute. auto. Qed.
+
 (* ------------------------------------------------------------------ non-vacuity on concrete kernels *)
 
 Example ex_independent : independent [ex_ob] = true.
